@@ -25,7 +25,7 @@ def lines(path):
 
 def run(ctx, only=None):
     ctx.audit()
-    nfiles, nbase = (1200, 16) if ctx.tier == "quick" else (30000, 60)
+    nfiles, nbase = (1200, 16) if ctx.tier == "quick" else (10000, 40)
     if os.environ.get("PSV_C07_N"): nfiles = int(os.environ["PSV_C07_N"])
     import time
     replay_cmd = "VERIF_SEED=%d python3 bin/check.py C07 --tier %s" % (ctx.seed, ctx.tier)
@@ -53,6 +53,9 @@ def run(ctx, only=None):
     else:
         for i, b in enumerate(bases): files.append(("valid-unmutated", b))
         for b in bases[:3]: files += M.systematic_truncations(b)
+        files += M.boundary_counts()
+        flips = M.card_bitflips()
+        files += flips if ctx.tier != "quick" else rng.sample(flips, 150)
         while len(files) < nfiles:
             b = bases[min(int(rng.random() ** 2 * len(bases)), len(bases) - 1)]   # prefer the small files
             try: files.append(M.mutate(rng, b))
